@@ -334,6 +334,32 @@ func baselineLoopOrdinal(fn *ssa.Function, cur int) int {
 					m[best], used[best], matchedBase[b.Ordinal] = b.Ordinal, true, true
 				}
 			}
+			// what is left over on both sides: when it is the same number of loops of the same kinds in the same order,
+			// they are the same loops with changed bodies (a helper extracted from the body changes every callee name)
+			var restBase, restNow []loopFP
+			for _, b := range base.Loops {
+				if !matchedBase[b.Ordinal] {
+					restBase = append(restBase, b)
+				}
+			}
+			for _, l := range now {
+				if !used[l.Ordinal] {
+					restNow = append(restNow, l)
+				}
+			}
+			if len(restBase) == len(restNow) {
+				same := true
+				for i := range restBase {
+					if restBase[i].Kind != restNow[i].Kind {
+						same = false
+					}
+				}
+				if same {
+					for i := range restBase {
+						m[restNow[i].Ordinal], used[restNow[i].Ordinal] = restBase[i].Ordinal, true
+					}
+				}
+			}
 			for _, l := range now {
 				if !used[l.Ordinal] {
 					m[l.Ordinal] = -1
